@@ -98,10 +98,17 @@ def exp_atom(t):
     return a
   reg = run.__dict__.setdefault("exp_atoms", [])
   key = _leafset(t)
+  # an argument that was met before gets the atom it got then (whatever other multiples of it are registered:
+  # otherwise exp(u) met after exp(2u) would get a second square-root atom on every evaluation)
+  for (u, a) in reg:
+    if _leafset(u) == key and is_zero(t - u):
+      return a
   for (u, a) in reg:
     if _leafset(u) != key:
       continue
     for (p, q) in _RATIOS:
+      if (p, q) == (1, 1):
+        continue
       if is_zero(q * t - p * u):
         if q == 1:
           base = a
